@@ -584,11 +584,10 @@ impl<E: Effect, R: CommandReceiver<E>, S: EventSender<E>> Worker<E, R, S> {
                     .map_err(|e| EnvironmentError::HeapData(format!("{:?}", e)))?;
             }
             Err(error) => {
-                // Set the process result to the error and clear frames to complete it
-                if let Some(process) = self.executor.get_process_mut(awaiter) {
-                    process.result = Some(Err(error));
-                    process.frames.clear(); // Complete the process
-                }
+                // Record the failure; the awaiter's select propagates it when it reaches that
+                // process source (so source priority is respected, and a process that is no
+                // longer selecting on the failed process is not terminated).
+                self.executor.notify_failure(awaiter, awaited, error);
             }
         }
         Ok(())
